@@ -32,6 +32,50 @@ theorem fill_frame (bo : ByteOrder) (buf : List Nat) (fields : List (Leaf × Nat
     (writeExtras bo buf 0 fields)[i]? = buf[i]? ∧ (writeExtras bo buf 0 fields).length = buf.length :=
   ⟨writeExtras_frame bo buf fields i hp hout, writeExtras_len bo buf fields hp⟩
 
+/-- **fill_determined**: what the filler leaves in the written members does not
+    depend on what was there before — two buffers of the same length that
+    agree outside the written members are equal after the filler ran. -/
+theorem fill_determined (bo : ByteOrder) (b1 b2 : List Nat) (fields : List (Leaf × Nat))
+    (hd : PairwiseDisj fields) (hlen : b1.length = b2.length)
+    (hp : ∀ y ∈ fields, y.1.off + y.1.size ≤ b1.length)
+    (hout : ∀ i, (∀ y ∈ fields, i < y.1.off ∨ y.1.off + y.1.size ≤ i) → b1[i]? = b2[i]?) :
+    writeExtras bo b1 0 fields = writeExtras bo b2 0 fields := by
+  have hp2 : ∀ y ∈ fields, y.1.off + y.1.size ≤ b2.length := fun y hy => hlen ▸ hp y hy
+  apply List.ext_getElem?
+  intro i
+  by_cases hin : ∃ y ∈ fields, y.1.off ≤ i ∧ i < y.1.off + y.1.size
+  · obtain ⟨y, hy, hlo, hhi⟩ := hin
+    have h1 := writeExtras_readback bo b1 fields y hy hd hp
+    have h2 := writeExtras_readback bo b2 fields y hy hd hp2
+    have e1 := slice_getElem? (writeExtras bo b1 0 fields) y.1.off y.1.size (i - y.1.off)
+    have e2 := slice_getElem? (writeExtras bo b2 0 fields) y.1.off y.1.size (i - y.1.off)
+    rw [h1] at e1; rw [h2] at e2
+    have hlt : i - y.1.off < y.1.size := by omega
+    have hidx : y.1.off + (i - y.1.off) = i := by omega
+    rw [if_pos hlt, hidx] at e1 e2
+    rw [← e1, ← e2]
+  · have hout' : ∀ y ∈ fields, i < y.1.off ∨ y.1.off + y.1.size ≤ i := by
+      intro y hy
+      by_cases h : i < y.1.off
+      · exact Or.inl h
+      · right
+        apply Nat.le_of_not_lt
+        intro h2
+        exact hin ⟨y, hy, Nat.le_of_not_lt h, h2⟩
+    rw [writeExtras_frame bo b1 fields i hp hout', writeExtras_frame bo b2 fields i hp2 hout']
+    exact hout i hout'
+
+/-- **fill_idempotent**: running the filler again changes nothing. -/
+theorem fill_idempotent (bo : ByteOrder) (buf : List Nat) (fields : List (Leaf × Nat))
+    (hd : PairwiseDisj fields) (hp : ∀ y ∈ fields, y.1.off + y.1.size ≤ buf.length) :
+    writeExtras bo (writeExtras bo buf 0 fields) 0 fields = writeExtras bo buf 0 fields := by
+  have hl := writeExtras_len bo buf fields hp
+  have hp' : ∀ y ∈ fields, y.1.off + y.1.size ≤ (writeExtras bo buf 0 fields).length :=
+    fun y hy => by rw [hl]; exact hp y hy
+  have h := fill_determined bo (writeExtras bo buf 0 fields) buf fields hd hl hp'
+    (fun i ho => writeExtras_frame bo buf fields i hp ho)
+  rw [h]
+
 /-- the message filler is such a member-wise write of
     schemaId, templateId, version, blockLength (+ declared counters) -/
 theorem message_filler_is_fields (bo : ByteOrder) (s : SchemaDef) (m : NMessage) (ng nd : Nat) (hdr : List Nat) :
@@ -76,5 +120,9 @@ example :
     let fields : List (Leaf × Nat) := [(⟨4, 2⟩, 7), (⟨0, 2⟩, 300), (⟨7, 1⟩, 2)]
     PairwiseDisj fields ∧ writeExtras .big [9, 9, 9, 9, 9, 9, 9, 9] 0 fields = [1, 44, 9, 9, 0, 7, 9, 2] := by
   refine ⟨by simp [PairwiseDisj, Disj], by decide⟩
+example :
+    let fields : List (Leaf × Nat) := [(⟨4, 2⟩, 7), (⟨0, 2⟩, 300), (⟨7, 1⟩, 2)]
+    writeExtras .big [1, 2, 9, 9, 3, 4, 9, 5] 0 fields = writeExtras .big [9, 9, 9, 9, 9, 9, 9, 9] 0 fields := by
+  decide
 
 end Sbepp.Properties.C17
